@@ -25,6 +25,8 @@ pub struct Case {
     pub nvalues: usize,
     /// (arrival choice, free delta ns, value, batch)
     pub reqs: Vec<(u8, u64, usize, u32)>,
+    /// further flow throttling rules on the same resource (end-to-end flow mode only): (rate, interval ms, max queueing ms)
+    pub extra_rules: Vec<(f64, u64, u64)>,
 }
 
 const VALUES: [&str; 3] = ["x", "y", "z"];
@@ -51,7 +53,18 @@ pub fn decode(u: &mut Bytes) -> Case {
         };
         reqs.push((u.choice(10) as u8, u.u16() as u64 * 40_000, u.choice(nvalues), batch));
     }
-    Case { hotspot, end_to_end, rate, interval_ms, max_queue_ms, nvalues, reqs }
+    // drawn from the tail so that the layout above (and the committed replays) stay as they were
+    let mut extra_rules = Vec::new();
+    if !hotspot && end_to_end {
+        let k = [0usize, 0, 1, 1, 2][u.tail_choice(5)];
+        for _ in 0..k {
+            let r = [10.0, 2.5, 1.0, 3.0, 7.0, 100.0, 0.5, 1000.0][u.tail_choice(8)];
+            let i = [1000u64, 0, 100, 10_000][u.tail_choice(4)];
+            let m = [500u64, 0, 10, 2000, 100, 5000][u.tail_choice(6)];
+            extra_rules.push((r, i, m));
+        }
+    }
+    Case { hotspot, end_to_end, rate, interval_ms, max_queue_ms, nvalues, reqs, extra_rules }
 }
 
 impl Property for C07 {
@@ -68,7 +81,7 @@ impl Property for C07 {
         vec![("prop", 300_000, 260)]
     }
     fn rule(&self) -> String {
-        "bytes -> flow Direct/Throttling rule (rate in {0,1,2.5,3,7,10,100,333,1000} per {default,100,1000,10000} ms) or hotspot QPS/Throttling rule (q in {0,1,2,3,7,10,50,100} per 1-3 s, 1-3 values), max queueing in {0,1,10,100,500,2000} ms, two drive modes (Controller::perform_checking without sleep / EntryBuilder::build with virtual sleep), 3-52 requests with batch 1..12 and arrival from a menu (same instant, just before / exactly at / just after the previously scheduled slot and the slot after it, free); oracle = integer-time PacerModel: spacing of scheduled times >= batch*interval/rate - eps, wait <= max + eps, rejection only if rate 0, batch > rate or needed wait > max - eps, must admit if needed wait < max - eps, caller resumes no earlier than its slot (clock after build - scheduled >= -eps); eps 2 ns (flow) / 1 ms (hotspot); non-trivial = >= 1 queued admission, >= 1 queue-overflow rejection and >= 2 consecutive admissions closer than the gap in arrival time; distinct = distinct decoded cases".into()
+        "bytes -> flow Direct/Throttling rule (rate in {0,1,2.5,3,7,10,100,333,1000} per {default,100,1000,10000} ms) or hotspot QPS/Throttling rule (q in {0,1,2,3,7,10,50,100} per 1-3 s, 1-3 values), max queueing in {0,1,10,100,500,2000} ms, two drive modes (Controller::perform_checking without sleep / EntryBuilder::build with virtual sleep), 3-52 requests with batch 1..12 and arrival from a menu (same instant, just before / exactly at / just after the previously scheduled slot and the slot after it, free); oracle = integer-time PacerModel: spacing of scheduled times >= batch*interval/rate - eps, wait <= max + eps, rejection only if rate 0, batch > rate or needed wait > max - eps, must admit if needed wait < max - eps, caller resumes no earlier than its slot (clock after build - scheduled >= -eps); eps 2 ns (flow) / 1 ms (hotspot); a fifth of the end-to-end flow cases carry 1-2 further throttling rules on the same resource (consultation order unspecified): there the caller must resume no earlier than every rule's earliest possible slot (per-rule lower bound of the schedule), is never held longer than the sum of the maximum queueing times, and a rejection needs a rule whose wait could exceed its maximum; non-trivial = >= 1 queued admission, >= 1 queue-overflow rejection and >= 2 consecutive admissions closer than the gap in arrival time; distinct = distinct decoded cases".into()
     }
     fn assumptions(&self) -> Vec<String> {
         vec![
@@ -84,8 +97,151 @@ impl Property for C07 {
     }
 }
 
+/// Several throttling rules on one resource, end to end. The order in which the rules are consulted is not
+/// specified (and a conforming implementation may hold the caller for the sum or for the maximum of the waits),
+/// so the oracle keeps, per rule, a LOWER bound of its last scheduled time (`lb`: every admission is scheduled
+/// no earlier than its arrival and no earlier than the previous slot plus the pace) and an UPPER bound (`ub`:
+/// no slot handed out so far lies after the instant the last build() returned). Clauses: an admitted caller
+/// resumes no earlier than every rule's earliest possible slot; nobody is held longer than the sum of the
+/// maximum queueing times; a rejection needs a rule whose wait could exceed its maximum.
+fn run_multi(case: &Case, cfg: &RunCfg) -> Verdict {
+    const ID: &str = "C07";
+    util::reset_all();
+    clock::new_case_epoch();
+    let res = util::fresh_name("c07m");
+    let mut specs: Vec<(f64, u64, u64)> = vec![(case.rate, case.interval_ms, case.max_queue_ms)];
+    specs.extend(case.extra_rules.iter().cloned());
+    let rules: Vec<Arc<flow::Rule>> = specs
+        .iter()
+        .map(|(r, i, m)| {
+            Arc::new(flow::Rule {
+                resource: res.clone(),
+                threshold: *r,
+                calculate_strategy: flow::CalculateStrategy::Direct,
+                control_strategy: flow::ControlStrategy::Throttling,
+                max_queueing_time_ms: *m as u32,
+                stat_interval_ms: *i as u32,
+                ..Default::default()
+            })
+        })
+        .collect();
+    flow::load_rules(rules);
+    // equal rules collapse into one controller: judge the distinct ones
+    let active: Vec<(f64, i128, i128)> = flow::get_traffic_controller_list_for(&res)
+        .iter()
+        .map(|tc| {
+            let r = tc.rule();
+            let i = if r.stat_interval_ms == 0 { 1000 } else { r.stat_interval_ms } as i128 * 1_000_000;
+            (r.threshold, i, r.max_queueing_time_ms as i128 * 1_000_000)
+        })
+        .collect();
+    if active.is_empty() {
+        fail!(ID, "rule-not-loaded", "rule-not-loaded", case, "no controller after load");
+    }
+    let eps: i128 = 4 * active.len() as i128;
+    let sum_max: i128 = active.iter().map(|a| a.2).sum();
+    let mut lb: Vec<Option<i128>> = vec![None; active.len()];
+    let mut ub: Option<i128> = None;
+    let (mut queued, mut overflow, mut n_adm, mut binding_not_first) = (0u64, 0u64, 0u64, 0u64);
+    let (rate0, int0, max0) = active[0];
+    for (ri, (choice, free, _v, batch)) in case.reqs.iter().enumerate() {
+        let now0 = clock::now_ns() as i128;
+        let n = *batch as f64;
+        let gap_of = |a: &(f64, i128, i128)| -> i128 { if a.0 > 0.0 { (n / a.0 * a.1 as f64) as i128 } else { 0 } };
+        let gap0 = gap_of(&(rate0, int0, max0));
+        let target: i128 = match (ub, choice) {
+            (_, 0) | (_, 1) | (None, _) => now0 + if *choice <= 1 { 0 } else { *free as i128 },
+            (Some(l), 2) => l - 1,
+            (Some(l), 3) => l,
+            (Some(l), 4) => l + 1,
+            (Some(l), 5) => l + gap0 - 1,
+            (Some(l), 6) => l + gap0,
+            (Some(l), 7) => l + gap0 + 1,
+            (Some(l), 8) => l + gap0 - max0,
+            (Some(_), _) => now0 + *free as i128,
+        };
+        if target > now0 {
+            clock::set_ns(target as u64);
+        }
+        let now = clock::now_ns() as i128;
+        let always_reject = active.iter().any(|a| a.0 <= 0.0 || n > a.0);
+        let r = build(Req::new(&res, *batch));
+        let after = clock::now_ns() as i128;
+        let slept = after - now;
+        if slept > sum_max + eps {
+            fail!(ID, "queued-beyond-max", "flow|multi|queued-beyond-max", case,
+                "request {}: the caller was held {} ns, more than the sum of the maximum queueing times {} ns", ri, slept, sum_max);
+        }
+        match r {
+            Ok(e) => {
+                e.exit();
+                if always_reject {
+                    fail!(ID, "admitted-impossible-request", "flow|multi|admitted-impossible-request", case,
+                        "request {}: batch {} admitted under rules {:?}", ri, n, active);
+                }
+                let mut slowest = 0usize;
+                let mut slowest_slot = i128::MIN;
+                for (k, a) in active.iter().enumerate() {
+                    let slot = lb[k].map(|l| (l + gap_of(a)).max(now)).unwrap_or(now);
+                    if after < slot - eps {
+                        fail!(ID, "not-delayed", "flow|multi|not-delayed", case,
+                            "request {} (batch {}): build() returned {} ns after the request, but rule {:?} (rate, interval ns, max queueing ns) cannot have scheduled it earlier than {} ns after it (its previous slot was no earlier than {} ns before the request, pace {} ns); rules in consultation order {:?}",
+                            ri, n, slept, a, slot - now, now - lb[k].unwrap_or(now), gap_of(a), active);
+                    }
+                    if slot > slowest_slot {
+                        slowest_slot = slot;
+                        slowest = k;
+                    }
+                    lb[k] = Some(slot);
+                }
+                if slept > 0 {
+                    queued += 1;
+                    if slowest != active.len() - 1 {
+                        binding_not_first += 1;
+                    }
+                }
+                n_adm += 1;
+            }
+            Err(m) => {
+                let bt = block_type_of(&m);
+                if bt != "Flow" {
+                    fail!(ID, "wrong-block-type", "flow|multi|wrong-block-type", case, "request {} blocked as {}", ri, bt);
+                }
+                if !always_reject {
+                    let could_overflow = active.iter().any(|a| {
+                        let needed = ub.map(|u| (u + gap_of(a) - now).max(0)).unwrap_or(0);
+                        needed > 0 && needed >= a.2 - eps
+                    });
+                    if !could_overflow {
+                        fail!(ID, "spurious-rejection", "flow|multi|spurious-rejection", case,
+                            "request {} (batch {}): rejected although no rule can need a wait beyond its maximum queueing time (no slot handed out so far lies after {} ns before the request); rules {:?}",
+                            ri, n, ub.map(|u| now - u).unwrap_or(0), active);
+                    }
+                    overflow += 1;
+                }
+            }
+        }
+        ub = Some(ub.map(|u| u.max(after)).unwrap_or(after));
+    }
+    let mut classes = vec!["flow-throttling", "end-to-end", "several-throttling-rules"];
+    if queued > 0 { classes.push("queued-admission"); }
+    if overflow > 0 { classes.push("queue-overflow-rejection"); }
+    if binding_not_first > 0 { classes.push("slowest-rule-not-consulted-last"); }
+    Verdict::Pass(CaseReport {
+        nontrivial: queued >= 1 && overflow >= 1 && binding_not_first >= 1,
+        classes,
+        digest: digest_of(case),
+        decoded: if cfg.want_decoded { serde_json::to_value(case).ok() } else { None },
+        known_hits: vec![],
+        counters: vec![("queued_admissions", queued), ("overflow_rejections", overflow), ("admissions", n_adm)],
+    })
+}
+
 pub fn run_case(case: &Case, cfg: &RunCfg) -> Verdict {
     const ID: &str = "C07";
+    if !case.extra_rules.is_empty() {
+        return run_multi(case, cfg);
+    }
     util::reset_all();
     let t0_ms = clock::new_case_epoch();
     let res = util::fresh_name("c07");
